@@ -27,9 +27,11 @@ Clauses(ev) ==
          [FlattenReturnsFlatSizeNumbers |-> ev.len = S!FlatSize(Sp) /\ ev.flat_size = S!FlatSize(Sp),
           FlattenDeterminesTheSample    |-> ev.vals = S!Flatten(ev.v)]
     [] ev.ev = "eq" ->
-         [EqualityIsStructural   |-> ev.res = S!Eq(Sp, ev.other),
+         \* `open': the property text does not fix the verdict for this pair (same Dict keys in another order); then only the
+         \* coherence of the real answers is demanded: whatever compares equal must hash equally
+         [EqualityIsStructural   |-> ev.open \/ (ev.res = S!Eq(Sp, ev.other)),
           HashingDoesNotRaise    |-> ev.hash_ok,
-          EqualSpacesHashEqually |-> S!Eq(Sp, ev.other) => ev.hash_equal]
+          EqualSpacesHashEqually |-> (S!Eq(Sp, ev.other) \/ ev.res) => ev.hash_equal]
     [] OTHER ->
          [GymRoundTripSucceeds       |-> ev.ok,
           GymRoundTripPreservesSpace |-> ev.ok => ev.eq]
